@@ -491,9 +491,15 @@ fn build_debug_for_struct(
 
     let mut wcb = WhereClauseBuilder::new(&item.generics);
     let use_bounds = e.push_bounds_to_with(hattrs, kind, &mut wcb);
+    let last_index = fields.len().wrapping_sub(1);
     let to_expr = |field: &FieldEntry| {
         let member = field.member();
-        quote!(&self.#member)
+        if field.index == last_index && may_be_unsized(&field.field.ty, &item.generics) {
+            // `&&` so that an unsized last field can be passed as `&dyn Debug`
+            quote!(&&self.#member)
+        } else {
+            quote!(&self.#member)
+        }
     };
     let expr = build_debug_expr(
         this_ty_ident,
@@ -512,6 +518,48 @@ fn build_debug_for_struct(
             }
         }
     })
+}
+/// Whether `ty` (the type of the last field of a struct) may be a dynamically sized type.
+fn may_be_unsized(ty: &Type, generics: &syn::Generics) -> bool {
+    use syn::{
+        GenericArgument, GenericParam, PathArguments, TraitBoundModifier, TypeParamBound,
+        WherePredicate,
+    };
+    fn is_maybe_sized<'a>(bounds: impl IntoIterator<Item = &'a TypeParamBound>) -> bool {
+        bounds.into_iter().any(|b| {
+            matches!(b, TypeParamBound::Trait(t) if matches!(t.modifier, TraitBoundModifier::Maybe(_)))
+        })
+    }
+    match ty {
+        Type::Slice(_) | Type::TraitObject(_) => true,
+        Type::Paren(t) => may_be_unsized(&t.elem, generics),
+        Type::Group(t) => may_be_unsized(&t.elem, generics),
+        Type::Path(t) if t.qself.is_none() => {
+            if t.path.is_ident("str") {
+                return true;
+            }
+            if let Some(ident) = t.path.get_ident() {
+                let by_param = generics.params.iter().any(|p| {
+                    matches!(p, GenericParam::Type(p) if &p.ident == ident && is_maybe_sized(&p.bounds))
+                });
+                let by_where = generics.where_clause.iter().flat_map(|w| &w.predicates).any(|p| {
+                    matches!(p, WherePredicate::Type(p)
+                        if matches!(&p.bounded_ty, Type::Path(b) if b.path.is_ident(ident)) && is_maybe_sized(&p.bounds))
+                });
+                return by_param || by_where;
+            }
+            // `Wrapper<.., Tail>`: unsized if its last type argument is
+            if let Some(PathArguments::AngleBracketed(args)) =
+                t.path.segments.last().map(|s| &s.arguments)
+            {
+                if let Some(GenericArgument::Type(last)) = args.args.last() {
+                    return may_be_unsized(last, generics);
+                }
+            }
+            false
+        }
+        _ => false,
+    }
 }
 fn build_debug_for_enum(
     item: &ItemEnum,
